@@ -179,6 +179,10 @@ pub enum Action {
     IntervalWith { timer: u8, period: u32 },
     DelayedSend { timer: u8, delay: u32 },
     DelayedExec { timer: u8, delay: u32 },
+    /// delayed_exec of a future that itself takes `work` ticks before its effect (the log entry):
+    /// it belongs to the incarnation that registered it from the moment it is registered until it
+    /// is through, the delay being only the first part of that
+    LongExec { timer: u8, delay: u32, work: u32 },
     /// hold the `Addr` stored under `key` as a child (add_child)
     AddChild { key: u8 },
     /// hold it under broadcast type `ty` (register_child::<Bc1|Bc2>)
@@ -689,6 +693,21 @@ impl<const K: u8> Probe<K> {
                 ctx.delayed_exec(
                     async move {
                         let _guard = guard;
+                        log(Ev::Enter {
+                            a: role,
+                            inst,
+                            inc: reg_inc,
+                            cb: Cb::Exec { timer, reg_inc },
+                        });
+                    },
+                    ms(delay),
+                )
+            }
+            Action::LongExec { timer, delay, work } => {
+                let inst = self.inst;
+                ctx.delayed_exec(
+                    async move {
+                        sleep(work).await;
                         log(Ev::Enter {
                             a: role,
                             inst,
